@@ -62,6 +62,10 @@ func buildScenarios(c *core.Ctx) []func() *Scenario {
 	for k := 0; k < c.N(4, 30); k++ {
 		add(func(i int, sd int64) *Scenario { return genStale(i, sd, th) })
 	}
+	// directed: file rotated between the watcher's stat and the open of its job
+	for k := 0; k < c.N(4, 30); k++ {
+		add(func(i int, sd int64) *Scenario { return genRotRace(i, sd, th) })
+	}
 	// truncation clause
 	tails := []string{"complete", "fragment", "blank"}
 	if th {
@@ -141,6 +145,15 @@ func run(c *core.Ctx) {
 		}
 		scs = f
 	}
+	if kind := os.Getenv("C03_KIND"); kind != "" { // debugging aid: run the scenarios of one kind
+		var f []func() *Scenario
+		for _, mk := range scs {
+			if mk().Kind == kind {
+				f = append(f, mk)
+			}
+		}
+		scs = f
+	}
 	workers := 12
 	var mu sync.Mutex
 	results := make([]*result, len(scs))
@@ -212,6 +225,14 @@ func run(c *core.Ctx) {
 	if c.Counter("trunc.detected_by_filed") == 0 && os.Getenv("C03_ONLY") == "" {
 		c.Fatal("file.d never reported a truncation")
 	}
+}
+
+func physSummary(res *result) []string {
+	var out []string
+	for _, ph := range res.Phys {
+		out = append(out, fmt.Sprintf("%s inode=%d size=%d rotated=%s", filepath.Base(ph.Path), ph.Inode, ph.Size, orNo(ph.Rotated)))
+	}
+	return out
 }
 
 func lastLines(s string, n int) string {
@@ -300,16 +321,9 @@ func judge(c *core.Ctx, res *result) {
 	}
 
 	c.Count("kill.by."+res.KilledBy, 1)
-	if os.Getenv("C03_DEBUG") != "" && (s.Kind == "stale" || s.Kind == "busy") {
-		fmt.Printf("  debug %s %d: killed_by=%s run1_trunc=%d notes=%v wall=%dms cfg=%+v\n", s.Kind, s.Idx, res.KilledBy, res.Run1Trunc, res.Notes, res.WallMs, s.Cfg)
-		if s.Kind == "stale" && s.Idx == 154 {
-			for _, l := range strings.Split(res.Run1LogTail, "\n") {
-				if strings.Contains(l, "maintenance stats") || strings.Contains(l, "matched by pattern") {
-					continue
-				}
-				fmt.Println("    LOG", core.Trunc(l, 260))
-			}
-		}
+	if os.Getenv("C03_DEBUG") != "" && s.Kind != "kill" {
+		fmt.Printf("  debug %s %d: killed_by=%s run1_trunc=%d readded=%d lost=%d notes=%v wall=%dms cfg=%+v phys=%v\n    offsets at kill: %q\n",
+			s.Kind, s.Idx, res.KilledBy, res.Run1Trunc, res.Run1Readded, lost, res.Notes, res.WallMs, s.Cfg, physSummary(res), sanitize(res.OffsetsAtKil, res.Dir))
 	}
 	if strings.HasPrefix(res.KilledBy, "hook:") {
 		c.Count("kill.hook_reached", 1)
@@ -408,6 +422,12 @@ func judge(c *core.Ctx, res *result) {
 		if e := byInode[ph.Inode]; e != nil {
 			if bad := nonLineEnd(s, l.Phys, e); bad != "" {
 				detail["non_line_end_offset_in_offsets_file"] = bad
+				if other := offsetsOfSuccessor(res, l.Phys, e); other != "" {
+					detail["offsets_are_line_ends_of"] = other
+					groups["C03:restart-loses-line:offsets-of-the-new-file-saved-under-the-inode-of-the-file-renamed-away"] =
+						append(groups["C03:restart-loses-line:offsets-of-the-new-file-saved-under-the-inode-of-the-file-renamed-away"], detailWithID(detail, l, ph, res))
+					continue
+				}
 				sig = fmt.Sprintf("C03:restart-loses-line:offsets-file-holds-an-offset-that-is-no-line-end-of-the-file:watch-file-changes=%t:truncation-reported-though-none-happened=%t",
 					s.Cfg.WatchChanges, res.Run1Trunc > 0)
 			}
@@ -488,6 +508,44 @@ func nonLineEnd(s *Scenario, phys int, e *offEntry) string {
 		}
 	}
 	return ""
+}
+
+// offsetsOfSuccessor: every saved offset of the entry is 0 or a line end of
+// another physical file that carries the same path name later (the file
+// created after `phys` was renamed away); returns that file's name.
+func offsetsOfSuccessor(res *result, phys int, e *offEntry) string {
+	s := res.S
+	for pi, ph := range res.Phys {
+		if pi == phys || ph.Logical != res.Phys[phys].Logical || pi < phys {
+			continue
+		}
+		ends := map[int64]bool{0: true}
+		for i := range s.Lines {
+			if s.Lines[i].Written && s.Lines[i].Phys == pi {
+				ends[s.Lines[i].End] = true
+			}
+		}
+		all := true
+		for _, v := range e.Streams {
+			if !ends[v] {
+				all = false
+			}
+		}
+		if all {
+			return filepath.Base(ph.Path)
+		}
+	}
+	return ""
+}
+
+func detailWithID(detail map[string]any, l *Line, ph *physFile, res *result) map[string]any {
+	detail["id"] = l.ID
+	detail["stream"] = streamKey(l.Stream)
+	detail["kind"] = l.Kind
+	detail["file"] = filepath.Base(ph.Path)
+	detail["start"], detail["end"] = l.Start, l.End
+	detail["delivered_in_run1"] = res.D1[l.ID] > 0
+	return detail
 }
 
 func anyNonLineEnd(res *result) string {
